@@ -733,7 +733,9 @@ func c15Run(c *core.Ctx) *core.Result {
 		r.Inconclusive = "not inside the chroot jail"
 		return r
 	}
-	srcRoot, dstRoot := c.Dir+"/s", c.Dir+"/d"
+	// (in half of the cases the path of the destination root starts with the
+	// characters of the source root's path without lying below it)
+	srcRoot, dstRoot := c.Dir+"/s", c.Dir+core.Pick(core.NewRand(core.Mix(c.Seed, "C15-root-names", c.Index)), []string{"/d", "/s.d"})
 	for _, d := range []string{srcRoot, dstRoot} {
 		if err := os.Mkdir(d, 0755); err != nil {
 			r.Inconclusive = err.Error()
